@@ -239,6 +239,9 @@ class PeeweeStorage(AbstractStorage):
             raise ValueError("Bucket did not exist, could not get metadata")
 
     def insert_one(self, bucket_id: str, event: Event) -> Event:
+        if event.id is not None:
+            # Upsert: only ever touch an event that belongs to this bucket
+            return self.replace(bucket_id, event.id, event)
         e = EventModel.from_event(self.bucket_keys[bucket_id], event)
         e.save()
         event.id = e.id
